@@ -213,3 +213,15 @@ mk buildloop-rename-func src/func/vbuilder.rs "                Ok(func) => {
                     return Ok(built);
                 }"
 mk rank9-rename-counts src/rank_sel/rank9.rs "        let mut counts = Vec::with_capacity(num_counts + 1);" "        let mut block_counts = Vec::with_capacity(num_counts + 1);" "            counts.push(count);" "            block_counts.push(count);" "        counts.push(BlockCounters {" "        block_counts.push(BlockCounters {" "            counts: counts.into()," "            counts: block_counts.into(),"
+mk rank-hinted-for-loop src/bits/bit_vec.rs "        while (hint_pos + 1) * 64 <= pos {
+            rank += bits.get_unchecked(hint_pos).count_ones() as usize;
+            hint_pos += 1;
+        }
+
+        rank + (bits.get_unchecked(hint_pos) & ((1 << (pos % 64)) - 1)).count_ones() as usize" "        let word_pos = pos / 64;
+        for w in hint_pos..word_pos {
+            rank += bits.get_unchecked(w).count_ones() as usize;
+        }
+        hint_pos = hint_pos.max(word_pos);
+
+        rank + (bits.get_unchecked(hint_pos) & ((1 << (pos % 64)) - 1)).count_ones() as usize"
